@@ -99,6 +99,8 @@ class Spec:
             acts.append("wu:0:%s" % inc)
         for v in self.iws_values:
             acts.append("iws:%d" % v)
+        acts.append("iws+mfs:5")        # the same change in a SETTINGS frame that also lists (an unchanged) MAX_FRAME_SIZE
+        acts.append("iws+mfs:65536")
         return acts
 
     def apply(self, st, lab):
@@ -253,10 +255,13 @@ class Spec:
                 else:
                     st.Ws[sid] += inc
                 out = "wu"
-        elif parts[0] == "iws":
+        elif parts[0] in ("iws", "iws+mfs"):
             v = int(parts[1])
             delta = v - st.iws
-            o = h.rx([wire.settings([(wire.S_INITIAL_WINDOW_SIZE, v)])])
+            pairs = [(wire.S_INITIAL_WINDOW_SIZE, v)]
+            if parts[0] == "iws+mfs":
+                pairs = [(wire.S_MAX_FRAME_SIZE, st.F), (wire.S_INITIAL_WINDOW_SIZE, v)]
+            o = h.rx([wire.settings(pairs)])
             overflow = any(w + delta > MAXW for s, w in st.Ws.items() if s not in st.done)
             # streams we already ended may or may not still be adjusted: only live ones are decisive
             overflow_any = any(w + delta > MAXW for s, w in st.Ws.items())
